@@ -122,7 +122,7 @@ type Evidence struct {
 // classes whose violation shows as a panic or a hang of the real function (what the replay harness observes)
 var replayable = map[string]bool{"idx": true, "slice": true, "nil": true, "div": true, "make": true, "typeassert": true, "mapnil": true, "panic": true, "pre": true, "dec": true}
 
-var contractClasses = map[string]bool{"pre": false, "post": true, "inv-entry": true, "inv-pres": true, "frame": true, "cover": true, "typestate": true, "typestate-err": true, "init": true, "reset": true, "recover": true, "subtype": true, "lemma": true, "frame-in": true, "frame-glob": true, "cap": true, "alloc": true}
+var contractClasses = map[string]bool{"pre": false, "post": true, "inv-entry": true, "inv-pres": true, "frame": true, "assert": true, "cover": true, "typestate": true, "typestate-err": true, "init": true, "reset": true, "recover": true, "subtype": true, "lemma": true, "frame-in": true, "frame-glob": true, "cap": true, "alloc": true}
 
 func checkCmd(args []string) {
 	fs := flag.NewFlagSet("check", flag.ExitOnError)
@@ -256,7 +256,7 @@ func checkCmd(args []string) {
 	// replays for everything that is neither proved, known nor in the ledger
 	var cases []*ReplayCase
 	caseOf := map[*Obl]*ReplayCase{}
-	if !*noReplay {
+	if !*noReplay && !sc.NoReplay {
 		var cand []item
 		for _, it := range needReplay {
 			if it.res == nil || len(it.o.Any) > 0 && it.o.Class != "dec" {
